@@ -193,7 +193,7 @@ class KexGex:
         self.g = m.get_mpint()
         # reject if p's bit length < 1024 or > 8192
         bitlen = util.bit_length(self.p)
-        if (bitlen < 1024) or (bitlen > 8192):
+        if (self.p < 0) or (bitlen < 1024) or (bitlen > 8192):
             raise SSHException(
                 "Server-generated gex p (don't ask) is out of range "
                 "({} bits)".format(bitlen)
